@@ -1725,7 +1725,9 @@ class Dict(Opcode):
                 f"Number of keys ({len(keys)}) and values ({len(values)}) for DICT do not match"
             )
 
-        interpreter.stack.append(ast.Dict(keys=reversed(keys), values=reversed(values)))
+        # these must be real lists: a one-shot `reversed` iterator is exhausted by the first
+        # traversal of the AST, so the dict would be empty the second time it is unparsed or visited
+        interpreter.stack.append(ast.Dict(keys=keys[::-1], values=values[::-1]))
 
 
 if sys.version_info < (3, 9):
